@@ -1263,6 +1263,7 @@ class Gen:
         stmt = apply_edits(stmt, edits)
         for rule in GENERIC_RULES:
             stmt = rule(stmt, log)
+        stmt = self.local_subs(stmt, d, log)   # per-slice substitutions (each with a stated reason, logged)
         # loop invariants / ghost preamble inside a slice (same sub-directives as for whole functions)
         ins = []
         pre = ""
